@@ -569,6 +569,7 @@ def build_unit(template, repo, variant='A'):
     n = len(tl)
     renames = {}
     impl_ctx = None  # (rel, header)
+    pending_subst = []
     impl_assoc = {}
 
     def emit(text, origin):
@@ -589,6 +590,10 @@ def build_unit(template, repo, variant='A'):
         pos, kw = _parse_args(rest)
         if d == 'rename':
             renames[pos[0]] = pos[1]
+            i += 1
+            continue
+        if d == 'subst':
+            pending_subst.append((pos[0], pos[1]))
             i += 1
             continue
         if d == 'item':
@@ -715,6 +720,13 @@ def build_unit(template, repo, variant='A'):
             c = {}
             local_ren = dict(renames)
             nt = normalise(raw, c, local_ren)
+            for old_t, new_t in pending_subst:
+                k = nt.count(old_t)
+                if k != 1:
+                    raise ExtractError('lost-anchor', '%s: operator text %r occurs %d times' % (name, old_t, k))
+                nt = nt.replace(old_t, new_t)
+                c['N8_operator_desugared:%s=>%s' % (old_t, new_t)] = 1
+            pending_subst = []
             if impl_ctx is not None:
                 for an, at in impl_assoc.items():
                     nt, k = re.subn(r'\bSelf::' + an + r'\b', at, nt)
@@ -756,7 +768,12 @@ def build_unit(template, repo, variant='A'):
                 b.lines.append(t)
                 b.origin.append({'k': 'ghost' if g else 'src', 'f': rel, 'fn': outname, 'tl': start_tno})
             last = len(b.lines)
-            b.fns[outname] = {'props': [] if is_assumed else [p for p in kw.get('props', '').split(',') if p], 'assumed': is_assumed, 'expect_fail': kw.get('expect-fail'),
+            fkey = outname
+            dup = 1
+            while fkey in b.fns:
+                dup += 1
+                fkey = '%s@%d' % (outname, dup)
+            b.fns[fkey] = {'props': [] if is_assumed else [p for p in kw.get('props', '').split(',') if p], 'assumed': is_assumed, 'expect_fail': kw.get('expect-fail'),
                               'first': first, 'last': last, 'file': rel, 'src_name': name, 'impl': header,
                               'src_line': src_line, 'sha256': hashlib.sha256(raw.encode()).hexdigest()}
             b.items.append({'kind': 'fn', 'name': (header + '::' if header else '') + name, 'as': outname, 'file': rel,
